@@ -13,10 +13,10 @@ GROUPS = {
 
 MOUNTS = {
     "root": "verif_kani",
-    "header": "headers::header::verif_kani",
-    "payload": "payload::verif_kani",
+    "header": "rpm::headers::header::verif_kani",
+    "payload": "rpm::payload::verif_kani",
     "version": "version::verif_kani",
-    "filecaps": "filecaps::verif_kani",
+    "filecaps": "rpm::filecaps::verif_kani",
 }
 
 
@@ -30,6 +30,20 @@ def H(name, group="plain", mount="root", tier="quick", role="main", timeout=300,
     d = {"name": name, "group": group, "mount": mount, "tier": tier, "role": role, "timeout": timeout}
     d.update(kw)
     return d
+
+
+A_MIR = [
+    "engine: own symbolic executor over rustc's MIR dump of /repo (regenerated on every run), z3 for path feasibility; every data-dependent branch is forked, so each path has a concrete result",
+    "trusted: the MIR interpreter (engines/symex.py), the models of the std functions it calls (listed per harness under extra.intrinsics), z3; the translator is validated on every run by pushing >150 concrete inputs (the repo's own test vectors and random ones) through both the interpreter and the real compiled crate",
+    "strings are ASCII: every byte in 0x01..0x7f (multi-byte UTF-8 and NUL are outside the bound)",
+]
+
+HDR_SHAPES = [(0, 0), (4, 0), (16, 0), (17, 1), (18, 0), (20, 2), (24, 0)]
+
+
+def MH(name, tier="quick", timeout=900, **kw):
+    return H(name, engine="mirsmt", group="mir", mount="mir", tier=tier, timeout=timeout, **kw)
+
 
 
 A_COMMON = [
@@ -85,7 +99,12 @@ PROPERTIES["C16"] = {
           tier=("quick" if i % 3 == 0 else "thorough"))
         for i, n in enumerate(["c16_bytes_0_0_0", "c16_bytes_1_3_2", "c16_bytes_2_0_1", "c16_bytes_3_1_0", "c16_bytes_4_2_3",
                                "c16_bytes_5_5_1", "c16_bytes_6_7_0", "c16_bytes_7_8_2", "c16_bytes_8_4_1", "c16_bytes_9_6_0"])
-    ] + [H("c16_twin", role="twin", timeout=60)],
+    ] + [MH("c16_meta_%d" % t, tier=("quick" if t <= 40 else "thorough"), timeout=(1800 if t <= 40 else 7200),
+            inputs="lead + %d symbolic bytes parsed by the real parser" % t, bounds="offsets of PARSED metadata vs the positions where the parser found the segments",
+            covers_unsat_ok=["signature header with padding", "metadata rejected"]) for t in (32, 40, 48, 49, 56)]
+    + [MH("c16_clear_%d_%d" % s, inputs="signature header with %d entries / %d symbolic store bytes" % s, bounds="Header::clear() then offsets vs written bytes", timeout=300)
+       for s in ((1, 4), (2, 9), (0, 0), (1, 16))]
+    + [H("c16_twin", role="twin", timeout=60)],
     "bounds": "arithmetic: all intro field values with each header below 2^31 bytes; bytes: headers of one entry, store sizes 0..9 (every residue mod 8), payload 0..3 bytes",
     "outside": "headers >= 2^31 bytes (u32 overflow in the sum); the invariant num_entries == index_entries.len() and data_section_size == store.len() that links the arithmetic to real packages is established by parse/from_entries (C01/C09 harnesses) and assumed here",
     "assumptions": A_COMMON + [A_FORGET, A_SHAPES, "headers are built as struct literals (pub(crate) fields); index_header agrees with the vectors"],
@@ -120,17 +139,23 @@ PROPERTIES["C14"] = {
         _c14("c14_sig_s5_k1", "entry fields, 5 store bytes (+3 padding)", "signature header; 1 byte per call", timeout=900),
         _c14("c14_sig_s5_k0", "same", "whole buffers", timeout=900, tier="thorough"),
         _c14("c14_sig_s1_k2", "entry fields, 1 store byte (+7 padding)", "2 bytes per call", timeout=900, tier="thorough"),
-        _c14("c14_package_k1", "whole 173-byte package", "lead + 1-entry signature header + 1-entry header + 3 payload bytes; 1 byte per call", timeout=1800),
+        _c14("c14_package_k1", "whole 173-byte package", "lead + 1-entry signature header + 1-entry header + 3 payload bytes; 1 byte per call", timeout=1800, tier="thorough"),
         _c14("c14_package_k4", "same", "4 bytes per call", timeout=1800, tier="thorough"),
-        _c14("c14_package_k0", "same", "whole buffers", timeout=1800, tier="thorough"),
+        _c14("c14_package_k0", "same", "whole buffers", timeout=1800),
         H("c14_model_equiv_k1", inputs="4 data bytes, length 0..4, fail_at/intr_at 0..8", bounds="two consecutive write_all calls", timeout=1800, tier="thorough", role="model"),
         H("c14_model_equiv_k3", inputs="same", bounds="same", timeout=1800, tier="thorough", role="model"),
         H("c14_model_equiv_k0", inputs="same", bounds="same", timeout=1800, tier="thorough", role="model"),
         H("c14_twin", role="twin", timeout=120),
-    ],
+    ] + [MH(n, inputs="package with 2-entry signature header, 1-entry main header, 3 payload bytes, contents symbolic; sink script symbolic", timeout=900,
+            bounds="Package::write / PackageMetadata::write from MIR into a scripted sink (chunk size in the name; k0 = whole buffers), failure or Interrupted at any call",
+            covers_unsat_ok=["write fails"]) for n in ("c14_wpkg_k0", "c14_wpkg_k1", "c14_wpkg_k2", "c14_wpkg_k5", "c14_wpkg_intr_k0", "c14_wpkg_intr_k1", "c14_wmeta_k1", "c14_wmeta_k0")]
+    + [MH("c14_meta_%d" % t, tier=("quick" if t <= 40 else "thorough"), timeout=(1800 if t <= 40 else 7200),
+            inputs="lead + %d symbolic bytes; source hands out 1, 3 or 7 bytes per read/fill_buf; truncation at each of the last 24 offsets before the payload" % t,
+            bounds="read side: PackageMetadata::parse from chunking / truncated sources, %d bytes after the lead" % t,
+            covers_unsat_ok=["signature header with padding", "metadata rejected"]) for t in (32, 40, 48, 49, 56)],
     "bounds": "headers of one entry, stores <= 8 bytes, payload 3 bytes; chunk sizes K in {1,2,3,4,5,whole}; failure at any call number (with K=1: at any byte offset); at most one Interrupted at any call number",
-    "outside": "larger packages; chunkings that vary from call to call (the 'seeded random sizes' family); more than one Interrupted; sinks violating the Write contract; the read side (parsing from a chunking source) is decided by the c14_source_* harnesses when they are in the plan, otherwise outside",
-    "assumptions": A_COMMON + [A_FORGET, A_SHAPES, A_S9],
+    "outside": "larger packages; chunkings that vary from call to call (the 'seeded random sizes' family); more than one Interrupted; sinks violating the Write contract; read side: metadata of up to 56 bytes after the lead (c14_meta_*, MIR engine), sources with a fixed chunk size 1/3/7, truncation at the last 24 offsets before the payload",
+    "assumptions": A_COMMON + [A_FORGET, A_SHAPES, A_S9, "read side on the MIR engine: reader model = std::io::Read/BufRead contract (read_exact all-or-error, fill_buf returns at most the chunk, consume skips only buffered bytes)"] + A_MIR[:2],
 }
 
 # ------------------------------------------------------------------------------------------ C01
@@ -144,10 +169,22 @@ PROPERTIES["C01"] = {
         H("c01_sigpad_arith", sub="codec", inputs="store size: any u32", bounds="none", timeout=120),
     ] + [H("c01_sigpad_write_%d" % i, sub="codec", inputs="%d store bytes" % i, bounds="signature header without entries, store of %d bytes" % i,
            timeout=300, tier=("quick" if i in (0, 3, 8) else "thorough")) for i in range(10)]
+    + [MH("c01_hdr_%d_%d" % s, tier=("quick" if s[0] <= 20 else "thorough"), timeout=(900 if s[0] <= 20 else 3600),
+          inputs="16 intro bytes (magic/version valid, counts symbolic) + %d index/store bytes + %d trailing bytes, all symbolic" % s,
+          bounds="Level H: Header::parse then Header::write, at most %d entries of ANY type/tag/offset/count, store up to %d bytes" % (s[0] // 16, s[0]),
+          covers_unsat_ok=["accepted with an entry", "header rejected"]) for s in HDR_SHAPES]
+    + [MH("c01_hdr_anyintro_%d_0" % r, inputs="all 16 intro bytes + %d further bytes symbolic" % r, bounds="Level H with arbitrary intro", timeout=900,
+          covers_unsat_ok=["accepted with an entry", "header rejected"]) for r in (0, 16, 17)]
+    + [MH("c01_meta_%d" % t, tier=("quick" if t <= 40 else "thorough"), timeout=(1800 if t <= 40 else 7200),
+          inputs="lead + %d symbolic bytes: signature header, padding, main header (all counts symbolic)" % t,
+          bounds="PackageMetadata::parse then write over %d bytes after the lead" % t, covers_unsat_ok=["signature header with padding", "metadata rejected"]) for t in (32, 40, 48, 49, 56)]
+    + [MH("c01_meta_lead_32", inputs="92 symbolic lead bytes + 32 symbolic bytes", bounds="arbitrary lead fields", timeout=1800, covers_unsat_ok=["signature header with padding", "metadata rejected"])]
+    + [MH("c01_hdr_bin_18_0", inputs="as c01_hdr_18_0, store bytes 0..255", bounds="non-UTF-8 store data for the non-string types", timeout=900,
+          covers_unsat_ok=["accepted with an entry", "header rejected"])]
     + [H("c01_twin", sub="codec", role="twin", timeout=120)],
     "bounds": "Level U: every byte of lead, header intro and index entry symbolic (complete over those segments); padding for every store size; Level H (whole headers through Header::parse) see harness list",
     "outside": "Level H beyond the listed shapes: headers with more than the listed number of entries / store bytes; compressed payload contents (opaque bytes to parse/write)",
-    "assumptions": A_COMMON + [A_S1, A_FORGET, A_SHAPES],
+    "assumptions": A_COMMON + [A_S1, A_FORGET, A_SHAPES, "Level H (c01_hdr_*) runs on the MIR engine: see the C13 assumptions (interpreter, std/nom models validated against the real crate), string data ASCII (A2)"],
 }
 
 # ------------------------------------------------------------------------------------------ C04
@@ -157,12 +194,30 @@ PROPERTIES["C04"] = {
         H("c04_lead_len", sub="codec", inputs="96 bytes, slice length 0..96 symbolic", bounds="none", timeout=900, tier="thorough"),
         H("c04_intro", sub="codec", inputs="16 bytes, slice length 0..16 symbolic", bounds="none", timeout=300),
         H("c04_index_entry", sub="codec", inputs="16 bytes, slice length 0..16 symbolic", bounds="none", timeout=300),
-    ] + [H("c04_echo_%d" % i, sub="codec", inputs="%d signature bytes" % i, bounds="signature blob of %d bytes" % i, timeout=120) for i in (0, 1, 4, 5, 6)]
-    + [H("c04_accessors_%d" % i, sub="codec", inputs="variant 0..9 symbolic, %d items" % i, bounds="%d items" % i, timeout=300) for i in (0, 1, 2)]
-    + [H("c04_payload_digest_%d" % i, sub="digest", inputs="payload digest algorithm id: any u32; %d digest items" % i, bounds="payload digest tag with %d items" % i, timeout=900) for i in (0, 1)]
+    ] + [H("c04_accessors_%d" % i, sub="codec", inputs="variant 0..9 symbolic, %d items" % i, bounds="%d items" % i, timeout=300) for i in (0, 1)]
+    + [H(n, mount="header", inputs="S store bytes and the item count (u32) symbolic", bounds="numeric decoder unit with the allocation-budget stub", timeout=300, covers_unsat_ok=["store used completely"])
+       for n in ("c04_unit_u16_budget", "c04_unit_u32_budget", "c04_unit_u64_budget")]
+    + [MH("c04_echo_%d" % i, inputs="%d signature bytes, log level of the environment symbolic" % i, bounds="signature blob of %d bytes" % i, timeout=300) for i in range(0, 7)]
+    + [MH("c04_payload_digest_%d" % i, inputs="payload digest algorithm id: any u32; %d digest items" % i, bounds="payload digest tag with %d items" % i, timeout=300,
+          covers_unsat_ok=["sha256 algorithm id"]) for i in (0, 1)]
+    + [MH("c04_hdr_%d_%d" % s, tier=("quick" if s[0] <= 20 else "thorough"), timeout=(900 if s[0] <= 20 else 3600),
+          inputs="16 intro bytes (magic/version valid, counts symbolic) + %d index/store bytes + %d trailing bytes, all symbolic" % s,
+          bounds="Header::parse, at most %d entries, store up to %d bytes" % (s[0] // 16, s[0]), covers_unsat_ok=["accepted with an entry", "header rejected"]) for s in HDR_SHAPES]
+    + [MH("c04_hdr_anyintro_%d_0" % r, inputs="all 16 intro bytes + %d further bytes symbolic" % r, bounds="Header::parse with arbitrary intro", timeout=900,
+          covers_unsat_ok=["accepted with an entry", "header rejected"]) for r in (0, 16, 17)]
+    + [MH("c04_meta_%d" % t, tier=("quick" if t <= 40 else "thorough"), timeout=(1800 if t <= 40 else 7200),
+          inputs="lead + %d symbolic bytes (signature header, padding, main header, trailing bytes)" % t, bounds="PackageMetadata::parse over %d bytes after the lead" % t,
+          covers_unsat_ok=["signature header with padding", "metadata rejected"]) for t in (32, 40, 48, 49, 56)]
+    + [MH("c04_cpio_%s_%d_%d" % (m, t, n), inputs="cpio entry header: %s magic, 13 symbolic hex fields, %d symbolic name/padding bytes, %d files in the header" % (m, t, n),
+          bounds="payload::Reader::new on one hostile entry header", timeout=900, tier=("quick" if (t, n) in ((2, 0), (12, 1)) or m == "stripped" else "thorough"),
+          covers_unsat_ok=["entry accepted", "entry rejected"]) for m in ("newc", "crc", "stripped", "anymagic") for (t, n) in ((0, 0), (2, 0), (4, 1), (12, 1))]
+    + [MH("c04_paths_%d_%d" % s, inputs="%d base names / directory indexes (any u32), %d directory names" % s, bounds="get_file_paths", timeout=600,
+          covers_unsat_ok=["paths returned", "error returned"]) for s in ((1, 1), (2, 1), (2, 2), (1, 0), (0, 0), (3, 2))]
+    + [MH("c04_hdr_bin_18_0", inputs="as c04_hdr_18_0 but store bytes unrestricted (0..255)", bounds="string decoding of non-ASCII bytes is outside the bound", timeout=900,
+          covers_unsat_ok=["accepted with an entry", "header rejected"])]
     + [H("c04_twin", sub="codec", role="twin", timeout=120)],
     "bounds": "Level U: every byte of lead / intro / index entry symbolic incl. truncated slices; accessors on every variant with 0..2 items; echo helper on blobs of 0..6 bytes",
-    "outside": "see DESIGN.md C04: compressed payload decoders (C libraries), OpenPGP packet parsing, headers beyond the listed Level-H shapes",
+    "outside": "see DESIGN.md C04: compressed payload decoders (C libraries), OpenPGP packet parsing / key-id extraction, headers beyond the listed Level-H shapes, the cpio reader beyond one entry header (data/padding skipping), the ten-way zip of get_file_entries",
     "assumptions": A_COMMON + [A_S1, A_FORGET, A_SHAPES],
 }
 
@@ -194,16 +249,74 @@ PROPERTIES["C08"] = {
     "assumptions": A_COMMON + [A_S4, A_S5, A_SHAPES, "inner sink: KSink short writes only (no failure/Interrupted); std's write_all drives Sha256Writer::write"],
 }
 
+# ------------------------------------------------------------------------------------------ C03 (MIR engine, digests as uninterpreted functions)
+A_UF = ("digests are uninterpreted functions of the exact byte sequence hashed (one z3 function per algorithm, length and output byte): equal inputs give equal digests, "
+        "nothing else is assumed - collision resistance is not used; the digest crates themselves (md-5, sha1, sha2, hex) are modelled, not executed")
+PROPERTIES["C03"] = {
+    "harnesses": [MH("c03_digests_m%02d" % m, timeout=1800, inputs="recorded MD5/SHA1/SHA256/payload digest, algorithm id, 2 header store bytes, 3 payload bytes: all symbolic",
+                     bounds="tag subset mask %d (1=MD5 2=SHA1 4=SHA256 8=payload digest); one-entry main header" % m,
+                     covers_unsat_ok=["verification succeeds", "verification fails"]) for m in range(16)],
+    "bounds": "every subset of the four digest tags; recorded values, algorithm id, header store bytes and payload bytes symbolic; package shape fixed (main header of one or two entries, 3 payload bytes)",
+    "outside": "other package shapes/sizes; the digest implementations themselves (modelled as uninterpreted functions)",
+    "assumptions": A_MIR + [A_UF],
+    "technique": None,
+}
+
+# ------------------------------------------------------------------------------------------ C05 (MIR engine)
+PROPERTIES["C05"] = {
+    "harnesses": [H(n, mount="header", inputs="S store bytes and the item count symbolic", bounds="per-type decoder unit (Kani), S as in the name", timeout=300, covers_unsat_ok=["store used completely"])
+                  for n in ("c05_unit_u16_s0", "c05_unit_u16_s5", "c05_unit_u32_s4", "c05_unit_u32_s9", "c05_unit_u64_s8", "c05_unit_u64_s17", "c05_unit_bin_s0", "c05_unit_bin_s6")]
+    + [MH("c05_hdr_%d_%d" % s, tier=("quick" if s[0] <= 20 else "thorough"), timeout=(900 if s[0] <= 20 else 3600),
+          inputs="header with one entry of symbolic type/offset/count (tag fixed to RPMTAG_NAME) and symbolic store", bounds="store up to %d bytes" % (s[0] - 16 if s[0] >= 16 else 0),
+          covers_unsat_ok=["accepted with an entry", "header rejected"] + ["decoded a %s entry" % t for t in ("Null", "Char", "Int8", "Int16", "Int32", "Int64", "StringTag", "Bin", "StringArray", "I18NString")])
+       for s in HDR_SHAPES if s[0] >= 16]
+    + [MH("c05_paths_%d_%d" % s, inputs="%d base names, %d directory indexes (any u32), %d directory names, all symbolic" % (s[0], s[0], s[1]),
+          bounds="get_file_paths = directory[dirindex] + basename; out-of-range index -> InvalidTagIndex", timeout=600, covers_unsat_ok=["paths returned", "error returned"])
+       for s in ((1, 1), (2, 1), (2, 2), (1, 0), (0, 0), (3, 2))]
+    + [MH("c05_paths_missing_" + m, inputs="one member of the BASENAMES/DIRINDEXES/DIRNAMES triple absent", bounds="missing member -> error", timeout=300,
+          covers_unsat_ok=["paths returned", "error returned"]) for m in ("BASENAMES", "DIRINDEXES", "DIRNAMES")]
+    + [MH("c05_hdr_bin_18_0", inputs="as c05_hdr_18_0, store bytes 0..255", bounds="non-UTF-8 data for the non-string types", timeout=900,
+          covers_unsat_ok=["accepted with an entry", "header rejected"] + ["decoded a %s entry" % t for t in ("Null", "Char", "Int8", "Int16", "Int32", "Int64", "StringTag", "Bin", "StringArray", "I18NString")])],
+    "bounds": "headers with one entry of any type, any offset/count, store up to 8 bytes: decoded data vs an independent decoder, every typed getter of Header (right type -> that value, wrong type -> error, absent tag -> TagNotFound)",
+    "outside": "zipped accessors other than get_file_paths (dependencies, changelog, the ten-way zip of get_file_entries); more than one entry per parsed header; multi-locale i18n selection",
+    "assumptions": A_MIR + A_COMMON[:1] + ["string data ASCII (A2)"],
+    "technique": None,
+}
+
+# ------------------------------------------------------------------------------------------ C02 (MIR engine)
+PROPERTIES["C02"] = {
+    "harnesses": [
+        MH("c02_verify_legacy", timeout=1800, inputs="54 shapes without an OpenPGP array: OPENPGP absent/wrong type x RSA, DSA, PGP absent/binary/wrong type; signature bytes, payload, accept pattern symbolic",
+           bounds="legacy signature tags", covers_unsat_ok=["verifier consulted twice"]),
+        MH("c02_verify_openpgp", timeout=3600, inputs="81 shapes with an OpenPGP string array of 0,1,2 items x legacy tags; decode result and accept pattern symbolic",
+           bounds="OpenPGP array present", covers_unsat_ok=["verifier consulted twice"]),
+        MH("c02_verify_digest", timeout=1800, inputs="5 shapes with a symbolic SHA256 header digest next to the signatures", bounds="digest check inside verify_signature",
+           covers_unsat_ok=["verifier consulted twice"]),
+    ],
+    "bounds": "all 135 combinations of {OPENPGP: absent, wrong type, array of 0/1/2 entries} x {RSA, DSA, PGP: absent, binary, wrong type}; signature and payload bytes symbolic; every accept/reject pattern of the verifier; base64 decoding = error or arbitrary bytes of length 0/3/6; one-entry main header",
+    "outside": "the second sentence of the property (tamper detection for packages signed by this library) rests on collision resistance and signature unforgeability - not a solver question; real OpenPGP parsing/crypto (the Verifying trait is the seam); more than two OpenPGP entries",
+    "assumptions": A_MIR + [A_UF, "S6: the verifier is an arbitrary implementation of the public Verifying trait (accept/reject per call chosen by the solver, records the bytes shown)",
+                            "S7: signatures::decode_sig (pgp crate's base64 reader) replaced by error-or-arbitrary-bytes"],
+    "technique": None,
+}
+
+# ------------------------------------------------------------------------------------------ C09 (MIR engine)
+_C09V = ["Char", "Int8", "Int16", "Int32", "Int64", "StringTag", "Bin", "StringArray", "I18NString"]
+_C09_QUICK_PAIRS = {("StringTag", "Int64"), ("Int8", "Int32"), ("Int8", "Int16"), ("StringArray", "Int16"), ("Bin", "Int64"), ("Int32", "Int64"), ("I18NString", "Int32"), ("Char", "StringTag")}
+PROPERTIES["C09"] = {
+    "harnesses": [MH("c09_one_" + a, inputs="one record of type %s, tag and contents symbolic" % a, bounds="Header::from_entries with one record", timeout=600) for a in _C09V]
+    + [MH("c09_pair_%s_%s" % (a, b), tier=("quick" if (a, b) in _C09_QUICK_PAIRS else "thorough"), timeout=900,
+          inputs="two records of types %s and %s, tags symbolic (distinct), contents symbolic" % (a, b), bounds="Header::from_entries with two records") for a in _C09V for b in _C09V]
+    + [MH(n, inputs="three records", bounds="Header::from_entries with three records", timeout=900) for n in ("c09_triple_str_i16_i64", "c09_triple_i8_i32_strs")]
+    + [MH("c09_sig_pair", inputs="signature-header instance", bounds="Header::<IndexSignatureTag>::from_entries", timeout=900), MH("c09_empty", inputs="no records", bounds="empty header", timeout=300)]
+    + [MH("c09_lead_%d" % n, inputs="package name of %d symbolic bytes" % n, bounds="Lead::new + Lead::write", timeout=300) for n in (0, 1, 3, 65, 66, 70)],
+    "bounds": "Header::from_entries for every ordered pair of the nine data types (1-2 items each), two triples, both tag instantiations; Lead::new for names of 0..70 bytes; signature padding is decided under C01 (c01_sigpad_*)",
+    "outside": "whole packages from the builder (record selection, rpmlib() requirements) and the cpio payload writer: PackageBuilder::prepare_data is outside reach (DESIGN.md C06/C07); records with zero items",
+    "assumptions": A_MIR + ["oracle: strict validator after rpm's hdrblobVerifyInfo/hdrblobVerifyRegion (region tag first, BIN count 16, trailer at the end of the store pointing back over all entries, tags strictly ascending, type alignment, in-range non-overlapping data, count != 0, terminated strings) + parse-back of the written bytes"],
+    "technique": None,
+}
+
 # ------------------------------------------------------------------------------------------ C13 (MIR -> SMT engine)
-A_MIR = [
-    "engine: own symbolic executor over rustc's MIR dump of /repo (regenerated on every run), z3 for path feasibility; every data-dependent branch is forked, so each path has a concrete result",
-    "trusted: the MIR interpreter (engines/symex.py), the models of the std functions it calls (listed per harness under extra.intrinsics), z3; the translator is validated on every run by pushing >150 concrete inputs (the repo's own test vectors and random ones) through both the interpreter and the real compiled crate",
-    "strings are ASCII: every byte in 0x01..0x7f (multi-byte UTF-8 and NUL are outside the bound)",
-]
-
-
-def MH(name, tier="quick", timeout=900, **kw):
-    return H(name, engine="mirsmt", group="mir", mount="mir", tier=tier, timeout=timeout, **kw)
 
 
 def _c13_tier(la, lb):
@@ -219,8 +332,12 @@ PROPERTIES["C13"] = {
     + [MH("c13_trans_%d_%d_%d" % s, tier=("quick" if sum(s) <= 4 else "thorough"), timeout=(900 if sum(s) <= 4 else 7200),
           inputs="three strings of %d,%d,%d symbolic ASCII bytes" % s, bounds="transitivity on exactly these lengths",
           covers_unsat_ok=["strict chain", "premise a<=b<=c reached"])
-       for s in [(1, 1, 1), (1, 1, 2), (1, 2, 1), (2, 1, 1), (1, 2, 2), (2, 1, 2), (2, 2, 1), (2, 2, 2), (0, 1, 2), (2, 1, 0), (1, 0, 2)]],
-    "bounds": "version strings of up to 4 ASCII bytes each (pairs), up to 2 bytes each (triples); all 127 byte values per position",
+       for s in [(1, 1, 1), (1, 1, 2), (1, 2, 1), (2, 1, 1), (1, 2, 2), (2, 1, 2), (2, 2, 1), (2, 2, 2), (0, 1, 2), (2, 1, 0), (1, 0, 2)]]
+    + [MH("c13_prefixed_" + k, inputs="literal prefix + symbolic tail on both sides", bounds="shape " + k, timeout=1800, tier=("quick" if k in ("big64", "big_vs_bigger", "zeros", "tilde", "caret") else "thorough"))
+       for k in ("big64", "big64_2", "big_vs_bigger", "zeros", "dot_big", "alpha_long", "tilde", "caret", "sep_runs")]
+    + [MH("c13_evr_%d_%d_%d_%d" % s, inputs="two EVRs with symbolic epoch digits, version and release bytes", bounds="epoch lengths %d/%d, version %d, release %d" % s, timeout=1800,
+          covers_unsat_ok=["equal pair", "unequal pair"]) for s in [(0, 0, 1, 1), (0, 1, 1, 1), (1, 0, 1, 1), (1, 1, 1, 1), (0, 1, 1, 0), (2, 1, 1, 0)]],
+    "bounds": "version strings of up to 4 ASCII bytes each (pairs), up to 2 bytes each (triples), all 127 byte values per position; plus literal long prefixes (19/20-digit runs, long alpha runs, separator runs, tilde/caret) with 1-2 symbolic bytes appended; EVR pairs with epochs of 0..2 digits",
     "outside": "longer strings, non-ASCII characters, NUL bytes; EVR/NEVRA ordering beyond what the c13_evr_* harnesses list",
     "assumptions": A_MIR,
     "technique": None,
@@ -287,10 +404,6 @@ NOT_APPLICABLE = {
     "C11": "nondeterminism comes from RandomState (OS randomness behind FFI); SipHash+hashbrown with a symbolic seed did not finish for a 2-element set; the clamp logic lives inside the unreachable prepare_data; cross-process runs are not expressible",
     "C12": "effects are file-system system calls (no model; symlink resolution is kernel semantics) and Path::join/strip_prefix/components exhausted 20 GB at four symbolic characters",
     "C17": "destination handling is PathBuf::parent/strip_prefix/file_name (same blow-up as C12); compression levels are consumed by C libraries behind FFI; capability text is C19",
-    "C02": "not yet built",
-    "C03": "being rebuilt on the MIR engine: the Kani harnesses (kept in harness/digest.rs) need > 30 min each because CBMC does not prune branches on niche-encoded Result values, so every digest is hashed symbolically in every shape",
-    "C05": "not yet built",
-    "C09": "not yet built",
 }
 
 PROPERTIES["C13"].update(claim="compare_version_string is symbolically executed from its MIR for every pair of ASCII strings up to the stated lengths (all 127 values per byte): "
@@ -313,3 +426,15 @@ PROPERTIES["C19"].update(claim="validate_caps_text / FileCaps::from_str are symb
 PROPERTIES["C15"].update(claim="EVR and NEVRA Display + parse are symbolically executed from MIR for all component values up to 3 bytes over rpm's legal character sets: components come back identical, "
                          "normalised EVR carries an epoch; every CompressionType variant parses from its own name and every accepted name is a variant's own name; parse never panics on texts up to 4 bytes.",
                          note=_NOTE_MIR)
+
+PROPERTIES["C03"].update(claim="Package::verify_digests is symbolically executed from its MIR for each of the 16 subsets of digest tags with every recorded value, the algorithm id, header store and payload bytes symbolic; "
+                         "digests are uninterpreted functions of the hashed bytes, so 'which bytes are hashed and what is compared' is decided exactly: Ok iff every present recorded value equals the recomputed one and the "
+                         "algorithm is SHA-256; a wrong digest gives DigestMismatchError; no panic.", note=_NOTE_MIR)
+PROPERTIES["C05"].update(claim="Per-type decoders are model-checked with Kani; whole one-entry headers of any type/offset/count are symbolically executed from MIR and the decoded data and every typed getter are compared "
+                         "with an independent decoding of the same bytes (big-endian integers at full length, strings up to the terminator, string arrays item by item, type mismatch and absent tag -> error).", note=_NOTE_MIR)
+
+PROPERTIES["C02"].update(claim="Package::verify_signature is symbolically executed from MIR against a recording implementation of the public Verifying trait for all 135 signature-header shapes and all accept/reject patterns: "
+                         "success implies at least one call, every call accepted, each call shown exactly the serialised header (header+payload for the PGP tag) and the stored signature bytes, and matching digests; "
+                         "conversely a well-typed, accepted signature verifies. The cryptographic corollary is outside reach.", note=_NOTE_MIR)
+PROPERTIES["C09"].update(claim="Header::from_entries (sorting, offset assignment, alignment, region tag and trailer) is symbolically executed from MIR for every ordered pair of data types and checked by a strict validator "
+                         "modelled on rpm's own header verification, plus parse-back of the emitted bytes; Lead::new for names of 0..70 bytes. Whole builder output and the cpio writer are outside reach.", note=_NOTE_MIR)
